@@ -119,7 +119,8 @@ def corpus():
              default=True, start=0, switches=[]),
         _arr(2, [_call(0, 'tA', [['status', 599], ['see'], ['call', _call(1, 'tB', [['status', '599 Custom'], ['see']])],
                                  ['status', 599], ['see']])]),
-        # copies of a response with a header given twice (F41), built without and with a class (F42); redirect() after it
+        # copies of a response with a header given twice, built without and with a class, and redirect() after it:
+        # compared with the same call served alone only (what copy() does there is an observation, DESIGN 0.6)
         _arr(2, [_call(0, 'tA', [['hdr_append', 'X-C', 'tAc1'], ['hdr_append', 'X-C', 'tAc2'], ['cookie', 'k', 'tAk'],
                                  ['resp_copy'], ['see'], ['resp_copy', 'http'], ['see'], ['redirect', '?to=tA']])], default=True),
         # the same signed cookie (mutable payload, shared secret) decoded by two applications: each changes its own value
